@@ -322,6 +322,27 @@ def _pure_task(c: Tuple, data: Dict[Any, Any], value: Any) -> bool:
 
 
 def execute(record: dict, rng: Optional[random.Random]) -> Outcome:
+    """Every run executes in a child forked from a process that has imported everything but has
+    never run the code under test: hidden module state cannot leak from one run into the next."""
+    import gc
+
+    from .core import fork_call, outcome_from_dict
+
+    gc.freeze()
+    return outcome_from_dict(fork_call(_execute_in_child, record, None if rng is None else rng.getstate()))
+
+
+def _execute_in_child(record: dict, rng_state: Any) -> dict:
+    from .core import outcome_to_dict
+
+    rng = None
+    if rng_state is not None:
+        rng = random.Random()
+        rng.setstate(rng_state)
+    return outcome_to_dict(_execute(record, rng))
+
+
+def _execute(record: dict, rng: Optional[random.Random]) -> Outcome:
     # pylint: disable=too-many-locals,too-many-branches,too-many-statements
     import dask
     import dask.array as da
